@@ -145,7 +145,7 @@ func emitAllFor(emit func(string), e string, n int, last *big.Int, allK bool) {
 func gen(tier string, r *lib.Rand, emit func(string)) {
 	seqLen, chainLen, permLen, nrand, progLen := 5, 6, 5, 400, 3
 	if tier == "thorough" {
-		seqLen, chainLen, permLen, nrand, progLen = 6, 7, 7, 8000, 4
+		seqLen, chainLen, permLen, nrand, progLen = 6, 7, 6, 8000, 4
 	}
 
 	// (a) every sequence over {-1..6} up to seqLen
@@ -156,7 +156,11 @@ func gen(tier string, r *lib.Rand, emit func(string)) {
 		if len(cur) > 0 {
 			last = big.NewInt(cur[len(cur)-1])
 		}
-		emitAllFor(emit, e, len(cur), last, true)
+		// beyond length 5 (thorough tier) the per-position listings are limited to sequences starting
+		// with 1: with another first element no prefix is ascending and only the quadratic path runs,
+		// which the shorter lengths already cover exhaustively
+		allK := len(cur) <= 5 || cur[0] == 1
+		emitAllFor(emit, e, len(cur), last, allK)
 		// supersets: single targets and one pair
 		if len(cur) <= 3 {
 			for t := int64(-1); t <= 6; t++ {
@@ -164,7 +168,7 @@ func gen(tier string, r *lib.Rand, emit func(string)) {
 			}
 			emit("superset " + e + " -")
 		}
-		if len(cur) >= 2 {
+		if len(cur) >= 2 && allK {
 			emit("superset " + e + " " + enc64([]int64{cur[len(cur)-1], cur[0]}))
 			emit("superset " + e + " " + enc64([]int64{cur[1], 7}))
 			emit("superset " + e + " " + e)
